@@ -4,6 +4,7 @@
 //!   {"k":"set","f":<field idx>,"val":"<u64 dec>"}  overwrite a field (width bytes, LE; inside an
 //!                                                   encrypted region: decrypt, patch, re-encrypt)
 //!   {"k":"set2","f":i,"val":..,"g":j,"val2":..}     two sibling fields edited together
+//!   {"k":"resize","r":i,"at":p,"n":k,"grow":bool,"tail":bool}   structured region / inner array one byte or element off
 //!   {"k":"tok","at":p,"marker":m,"n":k,"then":t}    k marker bytes and one ordinary token over a codec token stream
 //!   {"k":"tag","f":<field idx>,"how":"unknown|reversed|next|zero"}
 //!   {"k":"cut","at":n}                             keep the first n bytes
@@ -80,6 +81,41 @@ pub fn apply(seed: &Seed, op: &Value, label: &str) -> Vec<u8> {
             let v2: u64 = gs(op, "val2").parse().unwrap_or_else(|_| tool_error("bad val2"));
             write_field(&mut b, f, v);
             write_field(&mut b, g, v2);
+        }
+        "resize" => {
+            let r = &seed.regions[gi(op, "r") as usize];
+            let (at, n) = (gi(op, "at") as usize, gi(op, "n") as usize);
+            let (grow, tail) = (gb(op, "grow"), gb(op, "tail"));
+            let end = r.start + r.len;
+            let mut delta: i64 = 0;
+            if tail {
+                // the container declares n bytes less / more; no byte moves
+                delta = if grow { n as i64 } else { -(n as i64) };
+            } else if grow {
+                // n filler bytes behind the array; the rest of the region moves back and its last n bytes fall off
+                let mut span = b[r.start..end].to_vec();
+                let o = at - r.start;
+                for k in 0..n {
+                    span.insert(o + k, 0xA5);
+                }
+                span.truncate(r.len);
+                b[r.start..end].copy_from_slice(&span);
+            } else {
+                // the array loses its last n bytes; the rest of the region moves up, the container declares n less
+                let mut span = b[r.start..end].to_vec();
+                let o = at - r.start;
+                span.drain(o - n..o);
+                span.resize(r.len, 0);
+                b[r.start..end].copy_from_slice(&span);
+                delta = -(n as i64);
+            }
+            if delta != 0 {
+                for &fi in &r.size_fields {
+                    let f = &seed.fields[fi];
+                    let v = read_field(&b, f) as i64 + delta;
+                    write_field(&mut b, f, v.max(0) as u64);
+                }
+            }
         }
         "tok" => {
             let at = gi(op, "at") as usize;
